@@ -254,6 +254,12 @@ class Parser:
             return ('expr_nosemi', e)
         if v == 'while':
             self.next()
+            if self.accept('let'):
+                pat = self.parse_slice_pat()
+                self.expect('=')
+                scrut = self.parse_expr()
+                b = self.parse_block()
+                return ('whilelet', pat, scrut, b)
             c = self.parse_expr()
             b = self.parse_block()
             return ('while', c, b)
@@ -313,6 +319,7 @@ class Parser:
         return ('tail', e)
 
     def parse_pat(self):
+        self.accept('&')
         if self.accept('('):
             ps = []
             while not self.accept(')'):
@@ -322,6 +329,30 @@ class Parser:
             return ('ptuple', ps)
         self.accept('mut')
         return ('pid', self.next()[1])
+
+    def parse_slice_pat(self):
+        """slice patterns `[0, rest @ ..]`, `[_, rest @ ..]`, `[rest @ .., 0]`: -> ('front'|'back', element test, rest name)
+        where the element test is ('lit', k) or ('wild',)"""
+        self.expect('[')
+        elems = []
+        while not self.accept(']'):
+            kind, v = self.next()
+            if kind == 'num':
+                elems.append(('lit', int(v.replace('_', ''), 0)))
+            elif v == '_':
+                elems.append(('wild',))
+            elif kind == 'id':
+                self.expect('@')
+                self.expect('..')
+                elems.append(('rest', v))
+            else:
+                raise TranslateError('unsupported slice pattern element %r' % (v,))
+            self.accept(',')
+        if len(elems) == 2 and elems[1][0] == 'rest' and elems[0][0] in ('lit', 'wild'):
+            return ('front', elems[0], elems[1][1])
+        if len(elems) == 2 and elems[0][0] == 'rest' and elems[1][0] in ('lit', 'wild'):
+            return ('back', elems[1], elems[0][1])
+        raise TranslateError('unsupported slice pattern')
 
     def parse_match_pat(self):
         """patterns of `match` arms: `_`, a binding, a literal (`0`, `true`), tuples of these"""
@@ -393,7 +424,9 @@ class Parser:
                 if self.accept('..'):
                     idx = ('rangeto', self.parse_expr())      # `xs[..n]`
                 else:
-                    idx = self.parse_expr()
+                    idx = self.parse_expr(len(self.PREC) - 2)
+                    if self.accept('..'):
+                        idx = ('rangefrom', idx)               # `xs[k..]`
                 self.expect(']')
                 e = ('index', e, idx)
             elif self.peek()[1] == '(' and e[0] in ('path',):
@@ -434,6 +467,14 @@ class Parser:
                     return ('repeat', es[0], n)
                 self.accept(',')
             return ('array', es)
+        if v == 'if' and self.peek()[1] == 'let':
+            self.next()
+            pat = self.parse_slice_pat()
+            self.expect('=')
+            scrut = self.parse_expr()
+            a = self.parse_block()
+            b = self.parse_block() if self.accept('else') else None
+            return ('iflet', pat, scrut, a, b)
         if v == 'if':
             c = self.parse_expr()
             a = self.parse_block()
@@ -613,6 +654,12 @@ class Emitter:
             if e[2] == 'limbs' and t == 'uint':
                 return s, 'uint'
             raise TranslateError('unsupported field .%s' % e[2])
+        if k == 'index' and e[2][0] == 'rangefrom':
+            s_, t_ = self.expr(e[1], env)
+            if t_ not in ('slice', 'mutslice'):
+                raise TranslateError('suffix slicing of a non-slice')
+            n_, _ = self.expr(e[2][1], env, 'usize')
+            return '(%s.drop %s)' % (s_, n_), 'slice'       # `&xs[k..]` panics for k > len; callers pass k ≤ len
         if k == 'index' and e[2][0] == 'rangeto':
             s, t = self.expr(e[1], env)
             if t not in ('slice', 'mutslice'):
@@ -633,6 +680,25 @@ class Emitter:
             return '(%s.getD %s 0)' % (s, i), t[1]
         if k == 'refmut':
             return self.expr(e[1], env, exp)
+        if k == 'drop':
+            sx, tx = self.expr(e[1], env)
+            sn, _ = self.expr(e[2], env, 'usize')
+            return '(%s.drop %s)' % (sx, sn), ('slice' if tx in ('slice', 'mutslice') else tx)
+        if k == 'droplast':
+            sx, tx = self.expr(e[1], env)
+            return '(%s.dropLast)' % sx, ('slice' if tx in ('slice', 'mutslice') else tx)
+        if k == 'concat':
+            sx, tx = self.expr(e[1], env)
+            sy, _ = self.expr(e[2], env)
+            return '(%s ++ %s)' % (sx, sy), ('slice' if tx in ('slice', 'mutslice') else tx)
+        if k == 'headis':
+            sx, _ = self.expr(e[1], env)
+            return ('(%s.head? == some %d)' % (sx, e[2][1]) if e[2][0] == 'lit' else '(!(%s).isEmpty)' % sx), 'bool'
+        if k == 'lastis':
+            sx, _ = self.expr(e[1], env)
+            return ('(%s.getLast? == some %d)' % (sx, e[2][1]) if e[2][0] == 'lit' else '(!(%s).isEmpty)' % sx), 'bool'
+        if k == 'nil':
+            return '([] : List Nat)', 'slice'
         if k == 'match':
             return self.match_expr(e, env, exp)
         if k == 'if':
@@ -831,6 +897,8 @@ class Emitter:
             tmpl, rt = self.externs[name][0], self.externs[name][1]
             ss = [self.expr(a, env, None)[0] for a in args]
             return '(' + tmpl % tuple(ss) + ')', rt
+        if path[0] in ('algorithms', 'crate', 'super') and name in self.fns:
+            return self.call_fn(self.fns[name], args, env)
         head = self.ty(path[0])
         if name == 'from' and head in WIDTH:
             s, t = self.expr(args[0], env)
@@ -960,6 +1028,8 @@ class Emitter:
                 env2[x] = tr[1]
                 sb, tb = self.expr(args[1][2], env2, td)
                 return '(match %s with\n  | some %s => %s\n  | none => %s)' % (sr, lean_ident(x), sb, sd), tb
+        if tr in ('slice', 'mutslice') and name == 'is_empty' and not args:
+            return '(%s).isEmpty' % sr, 'bool'
         if (tr in ('slice', 'mutslice', 'uint') or (isinstance(tr, tuple) and tr[0] == 'array')) and name == 'len':
             return '(%s).length' % sr, 'usize'
         if tr == 'uint' and ('Uint::' + name) in self.fns:
@@ -1137,7 +1207,9 @@ class Emitter:
         if not mr:
             return term
         muts, unit = mr
-        parts = [lean_ident(n) for n in muts] + ([] if unit else [term])
+        wd = getattr(self, 'window_done', {})
+        parts = [('(%s ++ %s)' % (lean_ident(wd[n]), lean_ident(n)) if n in wd else lean_ident(n)) for n in muts] \
+            + ([] if unit else [term])
         return parts[0] if len(parts) == 1 else '(' + ', '.join(parts) + ')'
 
     def names_in(self, node, acc):
@@ -1169,6 +1241,20 @@ class Emitter:
             return None
         name = e[1][-1]
         ext = getattr(self, 'externs', {}).get(name)
+        sig = self.fns.get(name)
+        if (not ext or len(ext) < 3) and sig and len(sig) > 6 and sig[6]:
+            # a translated function with `&mut [u64]` parameters: it returns their new contents in front of its result
+            idxs, unit = sig[6]
+            targets = []
+            for i in idxs:
+                a = e[2][i]
+                if a[0] == 'refmut':
+                    a = a[1]
+                if not ((a[0] == 'path' and len(a[1]) == 1)
+                        or (a[0] == 'fieldname' and a[2] == 'limbs' and a[1][0] == 'path' and len(a[1][1]) == 1)):
+                    raise TranslateError('the `&mut [u64]` argument of %s must be a variable' % name)
+                targets.append(a)
+            return e, targets, unit
         if not ext or len(ext) < 3:
             return None
         targets = []
@@ -1531,6 +1617,104 @@ class Emitter:
         return '(if %s then (\n  %s)\n  else (\n  %s))' % (sc, sa, sb), ta
 
     # function ----------------------------------------------------------------------------------
+    # ---- slices that are re-borrowed (`lhs = rest`, `lhs = &mut lhs[1..]`, `split_at_mut`) ------------------------------------
+    # A `&mut [u64]` parameter whose variable is re-pointed at a suffix of itself is modelled as a window: the variable holds
+    # the current window and a hidden `<name>_done` holds the limbs of the caller's buffer in front of it (final buffer =
+    # done ++ window). `while let` / `if let` with slice patterns become ordinary conditions plus `let rest = suffix/prefix`.
+    def window_rewrite(self, body, mutparams):
+        self.window_done = {}
+
+        def suffix_of(e, prov):
+            """(variable, k) when e denotes the suffix `var[k..]` of a window variable"""
+            if e[0] == 'refmut':
+                e = e[1]
+            if e[0] == 'path' and len(e[1]) == 1 and e[1][0] in prov:
+                return prov[e[1][0]]
+            if e[0] == 'index' and e[2][0] == 'rangefrom' and e[1][0] == 'path' and len(e[1][1]) == 1:
+                return (e[1][1][0], e[2][1])
+            return None
+
+        def rw_block(blk, prov, shadow=frozenset()):
+            if blk is None:
+                return None
+            out = []
+            prov = dict(prov)
+            splits = []
+            for st in blk[1]:
+                k = st[0]
+                if k == 'whilelet':
+                    _, pat, scrut, b = st
+                    if pat[0] == 'front':
+                        cond = ('headis', scrut, pat[1])
+                        bind = ('let', ('pid', pat[2]), None, ('drop', scrut, ('lit', 1, 'usize')))
+                        p2 = dict(prov)
+                        if scrut[0] == 'path' and len(scrut[1]) == 1:
+                            p2[pat[2]] = (scrut[1][0], ('lit', 1, 'usize'))
+                    else:
+                        cond = ('lastis', scrut, pat[1])
+                        bind = ('let', ('pid', pat[2]), None, ('droplast', scrut))
+                        p2 = dict(prov)
+                    nb = rw_block(b, p2, shadow)
+                    out.append(('while', cond, ('block', [bind] + nb[1])))
+                    continue
+                if k in ('expr', 'expr_nosemi', 'tail') and st[1][0] == 'iflet':
+                    _, pat, scrut, a, b = st[1]
+                    if pat[0] != 'front':
+                        raise TranslateError('if let with a back pattern')
+                    cond = ('headis', scrut, pat[1])
+                    bind = ('let', ('pid', pat[2]), None, ('drop', scrut, ('lit', 1, 'usize')))
+                    p2 = dict(prov)
+                    if scrut[0] == 'path' and len(scrut[1]) == 1:
+                        p2[pat[2]] = (scrut[1][0], ('lit', 1, 'usize'))
+                    na = rw_block(a, p2, shadow)
+                    out.append(('expr_nosemi', ('if', cond, ('block', [bind] + na[1]), rw_block(b, prov, shadow))))
+                    continue
+                if k == 'assign' and st[1][0] == 'path' and len(st[1][1]) == 1 and st[1][1][0] in mutparams \
+                        and st[1][1][0] not in shadow:
+                    v = st[1][1][0]
+                    sf = suffix_of(st[2], prov)
+                    if sf is None or sf[0] != v:
+                        raise TranslateError('re-borrow of %s that is not a suffix of itself' % v)
+                    done = v + '_done'
+                    self.window_done[v] = done
+                    out.append(('assign', ('path', [done]), ('concat', ('path', [done]), ('index', ('path', [v]), ('rangeto', sf[1])))))
+                    out.append(('assign', ('path', [v]), ('drop', ('path', [v]), sf[1])))
+                    continue
+                if k == 'let' and st[1][0] == 'ptuple' and st[3][0] == 'mcall' and st[3][2] == 'split_at_mut' \
+                        and st[3][1][0] == 'path' and len(st[3][1][1]) == 1 and len(st[1][1]) == 2:
+                    v = st[3][1][1][0]
+                    n = st[3][3][0]
+                    t, r = st[1][1][0][1], st[1][1][1][1]
+                    out.append(('let', ('pid', t), None, ('index', ('path', [v]), ('rangeto', n))))
+                    out.append(('let', ('pid', r), None, ('drop', ('path', [v]), n)))
+                    splits.append((v, t, r))
+                    continue
+                # recurse into nested blocks
+                out.append(rw_stmt(st, prov, shadow))
+            for v, t, r in splits:
+                # the two halves go out of scope here: their contents are the buffer's
+                out.append(('assign', ('path', [v]), ('concat', ('path', [t]), ('path', [r]))))
+            return ('block', out)
+
+        def rw_stmt(st, prov, shadow):
+            k = st[0]
+            if k in ('expr', 'expr_nosemi', 'tail') and st[1][0] == 'if':
+                _, c, a, b = st[1]
+                return (k, ('if', c, rw_block(a, prov, shadow), rw_block(b, prov, shadow)))
+            if k == 'while':
+                return ('while', st[1], rw_block(st[2], prov, shadow))
+            if k == 'foreach':
+                names = set(self.pat_names(st[1] if not isinstance(st[1], str) else ('pid', st[1])))
+                return ('foreach', st[1], st[2], rw_block(st[3], prov, shadow | names))
+            if k == 'for':
+                return st[:5] + (rw_block(st[5], prov, shadow | {st[1]}),)
+            return st
+        nb = rw_block(body, {})
+        if self.window_done:
+            pre = [('let', ('pid', d), None, ('nil',)) for d in self.window_done.values()]
+            nb = ('block', pre + nb[1])
+        return nb
+
     def function(self, fn, lean_name):
         self.consts = {}
         self.tables = {}
@@ -1556,7 +1740,11 @@ class Emitter:
         self.aux = []
         self.uses_fuel = False
         self.nloops = 0
-        body, tb = self.block(fn['body'], env, self.inner_rt, result='fn')
+        fbody = fn['body']
+        self.window_done = {}
+        if any(self.ty(t) == 'mutslice' for _, t in fn['params']):
+            fbody = self.window_rewrite(fbody, [n for n, t in fn['params'] if self.ty(t) == 'mutslice'])
+        body, tb = self.block(fbody, env, self.inner_rt, result='fn')
         out = ''
         for tn, (term, t) in self.tables.items():
             out += 'def %s_%s : List Nat :=\n  %s\n\n' % (lean_name, tn, term)
@@ -1666,8 +1854,10 @@ def translate(items, namespace='Ruint.Gen', imports=('Ruint.Gen.Prelude',), fns=
             em.externs = it.get('externs', {})
             code = em.function(fn, it['lean'])
             key = it.get('key', it['fn'])
+            mutidx = [i for i, (_, t) in enumerate(fn['params']) if em.ty(t) == 'mutslice']
             fns[key] = (it['lean'], [em.ty(t) for _, t in fn['params']], em.cur_rt, em.uses_fuel,
-                        list(fn.get('consts', [])), bool(fn.get('self_mut')))
+                        list(fn.get('consts', [])), bool(fn.get('self_mut')),
+                        (mutidx, bool(em.mut_ret and em.mut_ret[1])) if mutidx else None)
             for alias in it.get('aliases', []):
                 fns[alias] = fns[key]
             out.append('/-- `%s` (%s) -/\n%s' % (it['fn'], it['file'].split('/src/')[-1], code))
@@ -1729,10 +1919,10 @@ def lehmer_items(repo):
     return out
 
 
-# slice algorithms that are not translated (slice re-borrowing): the C15 model function stands for the callee.
+# slice algorithms that are not translated (`addmul_n`: unrolled macro bodies, tied by C15's own generator): the C15 model
+# function stands for the callee. (`addmul` itself is translated: group 'kernels'.)
 # name -> (template, type, indices of the `&mut` arguments it updates[, returns unit])
 UINT_EXTERNS = {
-    'addmul': ('Ruint.Limb.addmul Ruint.W %s %s %s', ('tuple', ['uint', 'bool']), [0]),
     'addmul_n': ('(Ruint.Limb.addmulN Ruint.W %s %s %s).getD []', 'uint', [0], True),
 }
 
@@ -1770,7 +1960,8 @@ def kernel_items(repo):
             {'file': a + 'mul.rs', 'fn': 'submul_nx1', 'lean': 'submul_nx1', 'group': 'kernels'},
             {'file': a + 'shift.rs', 'fn': 'shift_left_small', 'lean': 'shift_left_small', 'group': 'kernels'},
             {'file': a + 'shift.rs', 'fn': 'shift_right_small', 'lean': 'shift_right_small', 'group': 'kernels'},
-            {'file': a + 'mod.rs', 'fn': 'cmp', 'lean': 'limb_cmp', 'group': 'kernels'}]
+            {'file': a + 'mod.rs', 'fn': 'cmp', 'lean': 'limb_cmp', 'group': 'kernels'},
+            {'file': a + 'mul.rs', 'fn': 'addmul', 'lean': 'addmul', 'group': 'kernels'}]
 
 
 def redc_loop_items(repo):
@@ -1803,7 +1994,7 @@ def div_loop_items(repo):
 
 GROUPS = [('core', 'Words', ('Ruint.Gen.Prelude',)),
           ('kernels', 'WordsKernels', ('Ruint.Gen.Words',)),
-          ('uint', 'WordsUint', ('Ruint.Gen.Words', 'Ruint.Base', 'Ruint.Model.MulKernels')),
+          ('uint', 'WordsUint', ('Ruint.Gen.Words', 'Ruint.Gen.WordsKernels', 'Ruint.Base', 'Ruint.Model.MulKernels')),
           ('lehmer', 'WordsLehmer', ('Ruint.Gen.Prelude',)),
           ('redc', 'WordsRedc', ('Ruint.Gen.Words',)),
           ('redcloops', 'WordsRedcLoops', ('Ruint.Gen.WordsRedc',)),
